@@ -28,7 +28,8 @@ Accounts == <<
 AccountsExtra == <<
   P0("misc"), P0("misc:my wallet:sub"), P0("misc:my wallet2"), P0("INCOME:bonus"), P0("liabilities:card"),
   P0("revenues:sales"), P0("assetsx:foo"), P0("кошелёк:a"), P("reserve:fund😀", 1), P("reserve:fund😀:x", 1),
-  P0("reserve:fund"), P0("reserve") >>
+  P0("reserve:fund"), P0("reserve"),
+  P0("misc:reserve"), P0("Misc:Reserve") >>      \* 25, 26: one name in two letter cases (ranking ties, case-exact indexes)
 AccountsX == Accounts \o AccountsExtra
 
 (* commodities: sym = the symbol the parser should report, txt = how it is written *)
@@ -335,7 +336,8 @@ RenDir(d) ==
             ELSE IF d.form = "inline" THEN << Lit(Sp(Lit(Empty, "commodity", "directive"), 1), Formats[d.fmt].txt, "format") >>
             ELSE << Put(Sp(Lit(Empty, "commodity", "directive"), 1), Commodities[Formats[d.fmt].comm].txt, "commodity"),
                     Lit(Sp(Lit(Sp(Empty, 2), "format", ""), 1), Formats[d.fmt].txt, "format") >>
-      [] d.dir = "include"   -> << Lit(Sp(Lit(Empty, "include", "directive"), 1), IncludePathsX[d.path], "incpath") >>
+      [] d.dir = "include"   -> << LET s == Lit(Sp(Lit(Empty, "include", "directive"), 1), IncludePathsX[d.path], "incpath")
+                                   IN IF "cmt" \in DOMAIN d /\ Len(d.cmt) = 1 THEN RenComment(Sp(s, 2), d.cmt[1]) ELSE s >>
       [] d.dir = "P"         -> << RenAmount(Sp(Put(Sp(Lit(Sp(Lit(Empty, "P", "directive"), 1), DateStr(d.date), "date"), 1),
                                                     Commodities[d.comm].txt, "commodity"), 1), d.a, "amount") >>
       [] d.dir = "Y"         -> << Lit(Sp(Lit(Empty, d.word, "directive"), 1), ToString(d.y), "year") >>
@@ -377,6 +379,16 @@ RenderedT(es, tight) ==
       pmap   |-> lay.pmap,
       abs    |-> [i \in 1..Len(es) |-> AbsEntry(es[i])] ]
 Rendered(es) == RenderedT(es, FALSE)
+
+(* trailing blanks: a spacing variant that no lexeme owns.  Every non-empty line whose number is 1 modulo 3 gets two of them
+   (an empty line is left alone: a line of nothing but blanks inside a transaction is a construct of its own) *)
+Trailing(r) ==
+    LET hit(i) == /\ r.lines[i] # "" /\ i % 3 = 1
+                  \* blanks after a comment are part of the comment: such a line is left as it is
+                  /\ (Len(r.lex[i]) = 0 \/ r.lex[i][Len(r.lex[i])].k # "comment") IN
+    [r EXCEPT !.lines = [i \in 1..Len(r.lines) |-> IF hit(i) THEN r.lines[i] \o "  " ELSE r.lines[i]],
+              !.u16   = [i \in 1..Len(r.lines) |-> IF hit(i) THEN r.u16[i] + 2 ELSE r.u16[i]],
+              !.runes = [i \in 1..Len(r.lines) |-> IF hit(i) THEN r.runes[i] + 2 ELSE r.runes[i]]]
 
 (* ---- helpers for writing choice records ----------------------------------------------------- *)
 D(y, m, d) == [y |-> y, m |-> m, d |-> d, sep |-> "-", pad |-> TRUE]
